@@ -609,7 +609,7 @@ void Model::on_routed_seen(int ref, const std::string &rid) {
 	r.rid = rid; r.rid_known = true;
 }
 
-void Model::on_routed_observed(int owner, const std::string &path, const JV *params, const std::string &rid) {
+bool Model::on_routed_observed(int owner, const std::string &path, const JV *params, const std::string &rid) {
 	for (size_t i = 0; i < routed.size(); i++) {
 		Routed &r = routed[i];
 		if (r.owner != owner || r.rid_known || r.path != path) continue;
@@ -618,8 +618,9 @@ void Model::on_routed_observed(int owner, const std::string &path, const JV *par
 		on_routed_seen((int)i, rid);
 		// the daemon did accept the request for routing
 		for (size_t d = 0; d < decisions.size(); d++) if (decisions[d].state == 0 && decisions[d].what == "route at capacity#" + std::to_string(i)) resolve_decision((int)d, true);
-		return;
+		return true;
 	}
+	return false;
 }
 
 void Model::on_timer_armed(int fd, uint64_t ns) {
